@@ -84,6 +84,8 @@ type wnFile struct {
 	apiDeleted bool           // deleted through the delete operation (not evicted)
 	partial    bool           // single chunks of it were fetched (it is not a complete known file)
 	members    []nkMember     // non-empty: the file is a directory (tar collection) with these members
+	pinComplete    bool       // every chunk of the file was stored when it was pinned (a pin skips chunks that are not stored)
+	delWhilePinned bool       // deleted through the API while pinned: its pin counters went with the chunks, the reference stayed listed
 	upEpoch    int            // barrier epoch in which the last local upload of it ran
 }
 
@@ -416,6 +418,9 @@ func (w *wnWorld) exec0(phase int, o gosim.Op) {
 			w.delEpoch[f.id] = w.epoch
 			f.apiDeleted = true
 			// (deleting a file does not unpin its reference: f.pinned stays)
+			if f.pinned {
+				f.delWhilePinned = true
+			}
 			w.mu.Unlock()
 			r.Count("probe_deleted")
 		}
@@ -457,7 +462,7 @@ func wnGen(prop string) func(rng *rand.Rand, tier string) *gosim.Plan {
 		// a family of files around one hot chunk (shared between files and
 		// repeated inside files): always for two thirds of the C16 runs, for one
 		// third of the C12 / C17 runs
-		hot := (prop == "C16" && rng.Intn(3) > 0) || ((prop == "C12" || prop == "C17") && rng.Intn(3) == 0)
+		hot := (prop == "C16" && rng.Intn(3) > 0) || ((prop == "C12" || prop == "C17" || prop == "C15") && rng.Intn(3) == 0)
 		if hot {
 			nfiles = 3 + rng.Intn(3)
 		}
@@ -522,7 +527,7 @@ func wnGen(prop string) func(rng *rand.Rand, tier string) *gosim.Plan {
 			}
 			return p
 		}
-		if hot && rng.Intn(2) == 0 {
+		if hot && prop != "C15" && rng.Intn(2) == 0 {
 			// scripted family history: make all files known (uploaded, some
 			// downloaded), then delete them one after the other in a random order;
 			// the oracle runs after every deletion
@@ -605,11 +610,53 @@ func wnGen(prop string) func(rng *rand.Rand, tier string) *gosim.Plan {
 				continue
 			}
 			nops := 1 + rng.Intn(4)
+			if prop == "C15" {
+				nops = 3 + rng.Intn(6)
+				if ph == 0 {
+					for f := 0; f < nfiles; f++ {
+						if rng.Intn(4) == 0 {
+							p.Ops = append(p.Ops, gosim.Op{K: "cache", A: []int64{0, int64(f)}})
+						} else {
+							p.Ops = append(p.Ops, gosim.Op{K: "upload", A: []int64{0, int64(f), 0}})
+						}
+					}
+				}
+			}
 			for i := 0; i < nops; i++ {
 				cl := int64(rng.Intn(ncli))
 				f := int64(rng.Intn(nfiles))
 				x := rng.Intn(100)
-				if hot {
+				if prop == "C15" {
+					// this property is about pins: mostly pin / unpin (also repeated),
+					// alone and two files at a time, over files made known first
+					switch y := rng.Intn(100); {
+					case y < 14:
+						p.Ops = append(p.Ops, gosim.Op{K: "upload", A: []int64{cl, f, int64(rng.Intn(3) / 2)}})
+					case y < 24:
+						p.Ops = append(p.Ops, gosim.Op{K: "cache", A: []int64{cl, f}})
+					case y < 44:
+						p.Ops = append(p.Ops, gosim.Op{K: "pin", A: []int64{cl, f}})
+					case y < 64:
+						p.Ops = append(p.Ops, gosim.Op{K: "unpin", A: []int64{cl, f}})
+					case y < 82:
+						// two files pinned at the same time, then unpinned
+						g := int64(rng.Intn(nfiles))
+						if g == f {
+							g = (f + 1) % int64(nfiles)
+						}
+						p.Ops = append(p.Ops, gosim.Op{K: "cpin", A: []int64{cl, f, g, int64(rng.Intn(2))}})
+					case y < 87:
+						p.Ops = append(p.Ops, gosim.Op{K: "delete", A: []int64{cl, f}})
+					case y < 91:
+						p.Ops = append(p.Ops, gosim.Op{K: "gc", A: []int64{cl}})
+					case y < 96:
+						p.Ops = append(p.Ops, gosim.Op{K: "read", A: []int64{cl, f}})
+					default:
+						p.Ops = append(p.Ops, gosim.Op{K: "sleep", A: []int64{cl, int64(rng.Intn(3000))}})
+					}
+					continue
+				}
+				if hot && prop != "C15" {
 					// more uploads and deletes: deletions of files that share chunks
 					switch y := rng.Intn(100); {
 					case y < 40:
@@ -1103,21 +1150,128 @@ func (w *wnWorld) listed(f *wnFile) bool {
 	return false
 }
 
+// cpin [cl, a, b, order]: two files that are stored and not pinned are pinned
+// concurrently, then unpinned one after the other: every stored chunk of both is
+// pinned in between, and at the end every pin count is back at its value from
+// before the pins and neither reference is listed.
+func (w *wnWorld) cpin(o gosim.Op) {
+	r := w.r
+	a, b := w.file(o.Arg(1)), w.file(o.Arg(2))
+	if a == nil || b == nil || a == b {
+		return
+	}
+	w.quiesce()
+	before := w.dump()
+	usable := func(f *wnFile) bool {
+		if !f.hasRef || f.uncertain || f.pinned || f.deleted || !(f.local || f.cached) || len(f.chunks) == 0 {
+			return false
+		}
+		for _, c := range f.chunks {
+			if _, ok := before.Data[c]; !ok {
+				return false
+			}
+		}
+		return !w.listed(f)
+	}
+	if !usable(a) || !usable(b) {
+		return
+	}
+	w.mu.Lock()
+	collected0 := w.collected
+	w.mu.Unlock()
+	r.Logf("cpin f=%d || f=%d", a.id, b.id)
+	var ca, cb int
+	done := make(chan struct{}, 2)
+	go func() { ca = w.n0.PinAPI(a.ref); done <- struct{}{} }()
+	go func() { cb = w.n0.PinAPI(b.ref); done <- struct{}{} }()
+	<-done
+	<-done
+	gosim.Idle()
+	okPin := func(c int) bool { return c == 200 || c == 201 }
+	r.Logf("cpin f=%d -> %d, f=%d -> %d", a.id, ca, b.id, cb)
+	if !okPin(ca) || !okPin(cb) {
+		// two pins of stored, unpinned references: nothing for them to fail on
+		r.Violate("concurrent-pin-failed", "concurrent pins of the stored files %d and %d returned %d and %d", a.id, b.id, ca, cb)
+	}
+	r.Count("probe_c15_concurrent_pins")
+	mid := w.dump()
+	for _, f := range []*wnFile{a, b} {
+		for _, c := range f.chunks {
+			if _, stored := mid.Data[c]; stored && mid.Pin[c] == 0 {
+				r.Violate("chunk-not-pinned", "files %d and %d pinned concurrently: stored chunk %s of file %d has pin count 0", a.id, b.id, c[:8], f.id)
+			}
+		}
+		if !w.listed(f) {
+			r.Violate("pinned-not-listed", "file %d was pinned last (concurrently with %d) but is not in the list of pinned references", f.id, b.id)
+		}
+	}
+	first, second := a, b
+	if o.Arg(3)%2 == 1 {
+		first, second = b, a
+	}
+	for _, f := range []*wnFile{first, second} {
+		if code := w.n0.UnpinAPI(f.ref); code != 200 {
+			r.Violate("unpin-failed", "unpin of file %d (pinned concurrently with another file, all its chunks stored) returned %d", f.id, code)
+		}
+	}
+	w.quiesce()
+	after := w.dump()
+	w.mu.Lock()
+	ran := w.collected != collected0
+	a.everUnpinned, b.everUnpinned = true, true
+	w.mu.Unlock()
+	if ran {
+		return // a collection ran meanwhile: evictions change pin state on their own
+	}
+	if d := wnPinDiff(before.Pin, after.Pin); len(d) != 0 {
+		r.Violate("unpin-not-inverse", "files %d and %d pinned concurrently and unpinned again: pin counts differ from before the pins by [%s]", a.id, b.id, wnFmtDiff(d))
+	}
+	for _, f := range []*wnFile{a, b} {
+		if w.listed(f) {
+			r.Violate("unpinned-still-listed", "file %d was unpinned last but is still in the list of pinned references", f.id)
+		}
+	}
+}
+
 func (w *wnWorld) exec15(phase int, o gosim.Op) {
 	r := w.r
+	if o.K == "cpin" {
+		w.cpin(o)
+		return
+	}
 	f := w.file(o.Arg(1))
 	interesting := f != nil && (o.K == "pin" || o.K == "unpin" || (o.K == "upload" && o.Arg(2) == 1))
 	if !interesting {
 		w.exec0(phase, o)
 		return
 	}
-	gosim.Idle()
+	w.quiesce()
 	before := w.dump()
 	wasPinned, hadRef := f.pinned, f.hasRef
+	w.mu.Lock()
+	collected0 := w.collected
+	w.mu.Unlock()
 	w.exec0(phase, o)
-	gosim.Idle()
+	w.quiesce()
 	after := w.dump()
 	if !f.hasRef || f.uncertain {
+		return
+	}
+	w.mu.Lock()
+	ran := w.collected != collected0
+	w.mu.Unlock()
+	if ran {
+		// the operation set off a collection run (unpinning enters a file into the
+		// gc index): evictions change pin counts on their own (see C12), so the
+		// counts before and after do not show the effect of this operation alone
+		r.Count("c15_op_overlapped_collection")
+		if o.K == "unpin" && wasPinned && !f.pinned {
+			f.pinDelta = nil
+		}
+		if o.K != "unpin" && f.pinned && !wasPinned {
+			f.pinDelta = nil
+			f.uncertain = true // its pin delta is unknown
+		}
 		return
 	}
 	diff := wnPinDiff(before.Pin, after.Pin)
@@ -1140,6 +1294,12 @@ func (w *wnWorld) exec15(phase int, o gosim.Op) {
 		} else {
 			r.Count("probe_c15_first_pin")
 			f.pinDelta = diff
+			f.pinComplete = len(f.chunks) > 0
+			for _, c := range f.chunks {
+				if _, ok := before.Data[c]; !ok && o.K == "pin" {
+					f.pinComplete = false
+				}
+			}
 			for _, c := range f.chunks {
 				if _, stored := after.Data[c]; stored && after.Pin[c] == 0 {
 					r.Violate("chunk-not-pinned", "file %d pinned (%s) but its stored chunk %s has pin count 0", f.id, o.K, c[:8])
@@ -1156,13 +1316,22 @@ func (w *wnWorld) exec15(phase int, o gosim.Op) {
 		}
 	case "unpin":
 		if wasPinned && !f.pinned {
+			dwp := f.delWhilePinned
+			f.delWhilePinned = false
 			r.Count("probe_c15_unpin")
-			// must subtract exactly what the pin added
+			// must subtract exactly what the pin added (unless a deletion of the
+			// file took pin counters away in between)
 			want := map[string]int64{}
 			for c, dv := range f.pinDelta {
 				want[c] = -dv
 			}
-			if wnFmtDiff(want) != wnFmtDiff(diff) {
+			if !dwp && wnFmtDiff(want) != wnFmtDiff(diff) {
+				if w.r.Plan.P("dbg", 0) == 1 {
+					for _, g := range w.sortedFiles() {
+						r.Logf("   file %d local=%v cached=%v deleted=%v pinned=%v chunks=%v", g.id, g.local, g.cached, g.deleted, g.pinned, g.chunks)
+					}
+					r.Logf("   pins before: %v", before.Pin)
+				}
 				r.Violate("unpin-not-inverse", "file %d: its pin changed the counts by [%s], the unpin by [%s]", f.id, wnFmtDiff(f.pinDelta), wnFmtDiff(diff))
 			}
 			f.pinDelta = nil
@@ -1172,8 +1341,19 @@ func (w *wnWorld) exec15(phase int, o gosim.Op) {
 				r.Violate("repeated-unpin-changed-counts", "file %d is not pinned; unpinning it changed pin counts: %s", f.id, wnFmtDiff(diff))
 			}
 		} else {
-			// the unpin failed while the file was pinned: the statement is silent
+			// the unpin failed while the file was pinned. With every chunk of the
+			// file stored there is nothing for it to fail on; otherwise (chunks
+			// deleted or evicted underneath the pin) the statement is silent
 			r.Count("unpin_failed")
+			complete := len(f.chunks) > 0
+			for _, c := range f.chunks {
+				if _, ok := before.Data[c]; !ok {
+					complete = false
+				}
+			}
+			if complete && f.pinComplete && !w.cut && !f.delWhilePinned {
+				r.Violate("unpin-failed", "unpin of the pinned file %d failed although all its chunks are stored; pin counts changed by [%s]", f.id, wnFmtDiff(diff))
+			}
 			f.uncertain = true
 			return
 		}
